@@ -20,4 +20,5 @@ HARNESSES = [
     ("wh", ("walrus_verif",), False),
     ("wh", ("walrus_verif", "walrus_verif_small"), False),
     ("dwh", (), False),
+    ("dwh", (), True),
 ]
